@@ -55,7 +55,7 @@ ASSUMPTIONS = [
     "no two file-store ids collide (C07's id hypothesis); ids in the file model are an abstract fresh counter",
 ]
 NOT_PROVED = [
-    "file_visit_sees_stable_mailboxes_stmt (Proofs/ConcStmts.v): a mailbox that holds mail during a whole VisitMailboxes walk is visited exactly once — checked by the runner's oracle (fail:visit-missed-mailbox) and by correspondence only",
+    "file_visit_at_most_once_stmt (Proofs/ConcFileVisit.v): one walk reports no mailbox twice — the missing half of 'visited exactly once'; the other half is the theorem file_visit_sees_stable_mailboxes_partial. Checked by correspondence only",
 ]
 EXEC_TIMEOUT = {"quick": 600, "thorough": 7200}
 
